@@ -1,6 +1,7 @@
 package main
 
 import (
+	"fmt"
 	"go/ast"
 	"go/token"
 	"go/types"
@@ -27,6 +28,7 @@ func init() {
 			{"C10-R2", "precedence by write order", c10r2},
 			{"C10-R3", "STRICT is explicit and TLS-only", c10r3},
 			{"C10-R4", "oldest policy wins", c10r4},
+			{"C10-R5", "ambient conversion: wider levels are consulted only where the narrower ones are UNSET", c10r5},
 		},
 	})
 }
@@ -365,4 +367,134 @@ func c10r4(c *Ctx) {
 	})
 	c.Check("selected-policy replacements found", fn.Pos(), n >= 3, "fewer replacement sites than the three levels")
 	c.Floor(4)
+}
+
+
+const pkgAmbient = "pilot/pkg/serviceregistry/ambient"
+
+// C10-R5: in the ambient conversion of a workload PeerAuthentication the namespace-level and mesh-level modes are
+// inherited levels: (a) they are consulted only on paths that established that the workload-level mode is UNSET, and
+// (b) the mesh level only where the namespace policy is absent or UNSET. A test of a wider level that is reachable
+// otherwise lets the wider level override an explicit narrower mode.
+func c10r5(c *Ctx) {
+	p := c.P
+	fn := p.Func(pkgAmbient, "", "convertPeerAuthentication")
+	strictFn := p.FuncObj(pkgAmbient, "", "isMtlsModeStrict")
+	unsetFn := p.FuncObj(pkgAmbient, "", "isMtlsModeUnset")
+	paramNamed(fn, "cfg")
+	paramNamed(fn, "nsCfg")
+	paramNamed(fn, "rootCfg")
+	// which policy a value is read from: the name of the parameter / captured variable at the root of its access path
+	// (the per-port loop is a range-over-func, so its body is a function literal that captures them)
+	var rootOf func(v ssa.Value, d int) string
+	rootOf = func(v ssa.Value, d int) string {
+		if d > 10 {
+			return ""
+		}
+		switch x := v.(type) {
+		case *ssa.Parameter:
+			return x.Name()
+		case *ssa.FreeVar:
+			return x.Name()
+		case *ssa.Alloc:
+			return x.Comment
+		case *ssa.FieldAddr:
+			return rootOf(x.X, d+1)
+		case *ssa.Field:
+			return rootOf(x.X, d+1)
+		case *ssa.UnOp:
+			return rootOf(x.X, d+1)
+		case *ssa.Call:
+			if len(x.Call.Args) > 0 && !x.Call.IsInvoke() {
+				return rootOf(x.Call.Args[0], d+1) // getters: GetMtls(), GetMode()
+			}
+		}
+		return ""
+	}
+	level := func(v ssa.Value) string {
+		switch rootOf(v, 0) {
+		case "cfg", "pa", "mode":
+			return "workload"
+		case "nsCfg":
+			return "namespace"
+		case "rootCfg":
+			return "mesh"
+		}
+		return ""
+	}
+	var fns []*ssa.Function
+	var addFns func(f *ssa.Function)
+	addFns = func(f *ssa.Function) {
+		fns = append(fns, f)
+		for _, a := range f.AnonFuncs {
+			addFns(a)
+		}
+	}
+	addFns(fn)
+	n, nW := 0, 0
+	ord := map[string]int{}
+	for _, f := range fns {
+		var wUnset, nAbsent []Edge
+		for _, i := range allIfs(f) {
+			v, neg := stripNot(i.Cond)
+			tIdx := 0
+			if neg {
+				tIdx = 1
+			}
+			if call, ok := v.(*ssa.Call); ok && isCallTo(call, unsetFn) {
+				switch level(call.Call.Args[0]) {
+				case "workload":
+					wUnset = append(wUnset, Edge{i.Block(), tIdx})
+				case "namespace":
+					nAbsent = append(nAbsent, Edge{i.Block(), tIdx})
+				}
+			}
+			if x, eq, ok := nilCmp(v); ok && level(x) == "namespace" && rootOf(x, 0) == "nsCfg" {
+				if _, isPtr := x.Type().Underlying().(*types.Pointer); isPtr {
+					idx := tIdx
+					if !eq {
+						idx = 1 - tIdx
+					}
+					nAbsent = append(nAbsent, Edge{i.Block(), idx})
+				}
+			}
+			if b, ok := v.(*ssa.BinOp); ok && (b.Op == token.EQL || b.Op == token.NEQ) {
+				if k, ok := b.Y.(*ssa.Const); ok && k.Value != nil && k.Int64() == 0 && level(b.X) == "workload" {
+					if nt, ok := b.X.Type().(*types.Named); ok && nt.Obj().Name() == "PeerAuthentication_MutualTLS_Mode" {
+						idx := tIdx
+						if b.Op == token.NEQ {
+							idx = 1 - tIdx
+						}
+						wUnset = append(wUnset, Edge{i.Block(), idx})
+					}
+				}
+			}
+		}
+		nW += len(wUnset)
+		if f == fn {
+			// outside the per-port loop the wider levels are read once more to decide whether the static STRICT policy is
+			// merged in (shouldMergeStrict); that flag only takes effect together with foundNonStrictPortmTLS, which the
+			// per-port code sets only where the workload level is STRICT (the merged rule then duplicates the workload's
+			// own) or UNSET with a STRICT effective mode. Read and confirmed; not part of the per-port decision.
+			continue
+		}
+		for _, call := range callsIn(f, strictFn, unsetFn) {
+			lv := level(call.Common().Args[0])
+			if lv != "namespace" && lv != "mesh" {
+				continue
+			}
+			n++
+			ord[lv]++
+			site := fmt.Sprintf(" (%s-level test #%d of the per-port decision)", lv, ord[lv])
+			c.Check("ambient: "+lv+"-level mode consulted only where the workload level is UNSET"+site, call.Pos(), underEdges(f, call.Block(), wUnset),
+				"the "+lv+"-level mode is tested on a path that has not established that the workload-level mode is UNSET: a "+lv+"-level STRICT can then stand in for an explicit workload-level PERMISSIVE/DISABLE (the port's STRICT rule is dropped as 'enforced by the parent' although the parent is not STRICT), so ztunnel and a sidecar derive different modes for the port")
+			if lv == "mesh" {
+				c.Check("ambient: mesh-level mode consulted only where the namespace level is absent or UNSET"+site, call.Pos(), underEdges(f, call.Block(), nAbsent),
+					"the mesh-level mode is tested on a path where a namespace-level mode may be set: the mesh level overrides the namespace level")
+			}
+		}
+	}
+	c.Check("ambient: workload-UNSET tests found", fn.Pos(), nW >= 2, "no test of the workload-level mode for UNSET in convertPeerAuthentication")
+	c.Check("ambient: inherited-level tests found", fn.Pos(), n >= 4, "fewer tests of namespace/mesh-level modes than confirmed by hand")
+	c.Floor(8)
 }
